@@ -93,6 +93,11 @@ Fixpoint exact_amount_ok (pools0 : list pool) (rq : request) (al : allocation) :
   | _, _ => false
   end.
 
+(** the same without relying on the order of the entries: as many resource allocations as entries,
+    each one exact for some entry of the request *)
+Definition exact_amount_set_ok (pools0 : list pool) (rq : request) (al : allocation) : bool :=
+  (len al =? len rq) && forallb (fun ra => existsb (fun e => ra_exact pools0 e ra) rq) al.
+
 (** `all` is only granted when everything is free *)
 Definition all_entries_free (pools_before : list pool) (pools0 : list pool) (rq : request) : bool :=
   forallb (fun e => match e_req e with
